@@ -19,7 +19,8 @@ From Coq Require Import String List NArith Arith.
 From Mimium Require Import Tables.LexerTables Tables.TokenKinds.
 From Mimium Require Parser.Model Parser.Bridge.
 From Mimium Require Import Lower.Ast Lower.Model Lower.ModelTypes Lower.ModelExpr Lower.ModelStmt.
-From Mimium Require Lower.Facts Lower.TotalStmt.
+From Mimium Require Lower.Facts Lower.TotalStmt Lower.Points Lower.PointsStmt Lower.Boundary.
+From Mimium Require Lexer.Model Lexer.Lemmas.
 Import ListNotations.
 Module P := Parser.Model.
 
@@ -58,3 +59,49 @@ Example C04_lower_small_fuel_runs_out :
   lower_with 3 toks root = OutOfFuel /\
   lower toks root = Ok [(PGlobalStatement (StmSingle (Ex (NLiteral (LFloat "1")) (mkLoc (mkSpan 1 2) true))), mkSpan 0 3)].
 Proof. vm_compute. split; reflexivity. Qed.
+
+(* ---------------------------------------------------------------------------------------------- *)
+(* C04_lower_errors_in_range.  Every position the lowering writes into the AST comes from a token:  *)
+(* Points.program_pts P p says that BOTH ENDS OF EVERY SPAN occurring in p satisfy P -- the          *)
+(* Location of every expression (Expr::Error placeholders included) and of every type, operator     *)
+(* spans, the Location of a parameter list, statement spans, also inside module bodies.             *)
+(* For every tree, table and fuel: each such position is 0 (Location::default(), 0..0 fallbacks) or  *)
+(* the start or the end of a token of the table (node_span, merge_spans and macro_expand_span only  *)
+(* combine token boundaries).                                                                       *)
+(* ---------------------------------------------------------------------------------------------- *)
+Theorem C04_lower_errors_in_range : forall (toks : nat -> option tokinfo) (root : P.tree) (fuel : nat) (p : program),
+  lower_with fuel toks root = Ok p ->
+  Points.program_pts (fun x : N => x = 0%N \/ exists i tk, toks i = Some tk /\ (x = t_start tk \/ x = t_end tk)) p.
+Proof. exact Boundary.lower_spans_are_token_boundaries. Qed.
+
+(* the general form: any predicate on byte offsets that holds of 0 and of the start and end of every token *)
+Theorem C04_lower_spans_from_tokens : forall (Q : N -> Prop) (toks : nat -> option tokinfo) (root : P.tree) (fuel : nat) (p : program),
+  Q 0%N -> (forall i tk, toks i = Some tk -> Q (t_start tk) /\ Q (t_end tk)) ->
+  lower_with fuel toks root = Ok p -> Points.program_pts Q p.
+Proof. exact PointsStmt.lower_points. Qed.
+
+(* hence no span reaches beyond the end of the last token (= the length of the text for the tokenizer's tokens) *)
+Theorem C04_lower_spans_in_text : forall (toks : nat -> option tokinfo) (root : P.tree) (fuel : nat) (p : program) (hi : N),
+  (forall i tk, toks i = Some tk -> (t_end tk <= hi)%N) ->
+  lower_with fuel toks root = Ok p -> Points.program_pts (fun x => (x <= hi)%N) p.
+Proof. exact Boundary.lower_spans_below. Qed.
+
+(* composition with the tokenizer theorem C13_tiling (Props/C13.v): when the table carries the positions of tokens that tile
+   the text s, every span end of the AST is a character boundary of s (what str::is_char_boundary tests) *)
+Theorem C04_lower_spans_on_char_boundaries :
+  forall (s : Lexer.Model.Input) (ltoks : list Lexer.Model.Token) (toks : nat -> option tokinfo) (root : P.tree) (fuel : nat) (p : program),
+  Lemmas.tiling s ltoks ->
+  (forall i tk, toks i = Some tk ->
+     exists t, nth_error ltoks i = Some t /\ t_start tk = Lexer.Model.tk_start t /\ t_len tk = Lexer.Model.tk_len t) ->
+  lower_with fuel toks root = Ok p -> Points.program_pts (Lemmas.char_boundary s) p.
+Proof. exact Boundary.lower_spans_on_char_boundaries. Qed.
+
+(* what program_pts says on an example: `1 +` lowers to BinOp(1, +, Error) whose Error has the default Location 0..0 *)
+Example C04_lower_error_location_example :
+  let root := P.TNode SProgram [P.TNode SStatement [P.TNode SBinaryExpr [P.TNode SIntLiteral [P.TTok 0]; P.TTok 1]]] in
+  let toks := fun i => nth_error [mkTok KInt 4 1 "1"; mkTok KOpSum 6 1 "+"] i in
+  lower toks root =
+    Ok [(PGlobalStatement (StmSingle (Ex (NBinOp (Ex NError (mkLoc (mkSpan 0 0) false)) OSum (mkSpan 6 7)
+                                                 (Ex (NLiteral (LFloat "1")) (mkLoc (mkSpan 4 5) true)))
+                                          (mkLoc (mkSpan 0 5) true))), mkSpan 4 7)].
+Proof. vm_compute. reflexivity. Qed.
